@@ -35,7 +35,25 @@ def _s6_polars_stacking(program, res):
     for c in stacks:
         how = next(kw.value.value for kw in c.keywords if kw.arg == "how")
         if how.endswith("_relaxed"):
-            res.ok("C17-S6", f"Polars rows -> blocks stacks the per-row frames with how='{how}' (columns are brought to a common dtype, as Pandas does)")
+            # relaxed stacking casts to the Polars supertype, which for a non-numeric mix rewrites values (Date -> day count, number / logical -> text):
+            # a refusal of such mixes has to run before it on every path
+            top = list(m.node.body)
+            stack_stmt = next((st for st in top if any(x is c for x in ast.walk(st))), None)
+            guard = None
+            for st in top:
+                if stack_stmt is not None and st.lineno < stack_stmt.lineno and isinstance(st, (ast.For, ast.If)):
+                    for iff in ast.walk(st):
+                        if isinstance(iff, ast.If) and "is_numeric" in unparse(iff.test) and any(isinstance(r_, ast.Raise) for b_ in iff.body for r_ in ast.walk(b_)):
+                            guard = iff
+            if stack_stmt is None:
+                raise AnalysisError("PolarsModel.rowrecs_to_blocks: the stacking is not a top-level statement of the method any more")
+            if guard is not None:
+                res.ok("C17-S6", f"Polars rows -> blocks stacks the per-row frames with how='{how}' after refusing a mix of non-numeric types (numbers go to their common type, as in Pandas)")
+            else:
+                res.fail_at("C17-S6", m, "polars-relaxed-stacking-casts-values",
+                            f"Polars rows -> blocks stacks the per-control-row frames with how='{how}' whatever their types: the Polars supertype of Int64 and Date is Int64, of a "
+                            f"number or Boolean and String is String — an int column and a date column come back as [1, 18262, 2, 18628] (Pandas keeps the dates in an object "
+                            f"column) and inverse() returns day counts / the texts 'true', 'false'", c)
         else:
             res.fail_at("C17-S6", m, "polars-strict-stacking",
                         f"Polars rows -> blocks stacks the per-control-row frames with how='{how}', which demands identical dtypes: a row record with an int column x and a float "
@@ -72,7 +90,97 @@ def _s7_block_alignment(program, res):
                         pastes[0].stmt)
 
 
+def record_sort_null_position(program, res, rule="C17-S9"):
+    """the row order of a record conversion is the sort the implementation ends with: Pandas sort_values puts a missing key last (na_position
+    default), so every Polars frame sort of the two conversions has to say nulls_last=True"""
+    for mname in ("blocks_to_rowrecs", "rowrecs_to_blocks"):
+        pdm = program.method("pandas_base", "PandasModelBase", mname, inherited=False)
+        first = [k.value.value for c in ast.walk(pdm.node) if isinstance(c, ast.Call) and isinstance(c.func, ast.Attribute) and c.func.attr == "sort_values"
+                 for k in c.keywords if k.arg == "na_position" and isinstance(k.value, ast.Constant)]
+        want_last = not (first and first[0] == "first")
+        m = program.method("polars_model", "PolarsModel", mname, inherited=False)
+        res.analysed(m, pdm)
+        sorts = [c for c in ast.walk(m.node) if isinstance(c, ast.Call) and isinstance(c.func, ast.Attribute) and c.func.attr == "sort"]
+        if not sorts:
+            raise AnalysisError(f"PolarsModel.{mname}: no frame sort found (two confirmed by hand)")
+        for c in sorts:
+            nl = {k.arg: k.value for k in c.keywords}.get("nulls_last")
+            if isinstance(nl, ast.Constant) and nl.value is want_last:
+                res.ok(rule, f"PolarsModel.{mname}: `{unparse(c)[:60]}` puts missing keys {'last' if want_last else 'first'}, as Pandas does")
+            else:
+                res.fail_at(rule, m, f"record-sort-null-position:{mname}",
+                            f"`{unparse(c)[:80]}` leaves nulls_last at its default (missing keys first); the Pandas conversion sorts them last: record keys b,None,a come "
+                            f"out a,b,None on Pandas and None,a,b on Polars", c)
+
+
+def documented_parameters_used(program, res, rule="C17-S10"):
+    """a documented parameter of a record-specification / record-map method that the body never reads cannot have the documented effect"""
+    mod = program.module("cdata")
+    n = 0
+    for f in program.all_functions():
+        if f.module is not mod or f.cls is None:
+            continue
+        params = [a.arg for a in f.node.args.args + f.node.args.kwonlyargs if a.arg not in ("self", "cls")]
+        if not params:
+            continue
+        body = [st for st in f.node.body if not (isinstance(st, ast.Expr) and isinstance(st.value, ast.Constant))]
+        if all(isinstance(st, (ast.Pass, ast.Raise)) for st in body):
+            continue  # abstract
+        names = {x.id for x in ast.walk(f.node) if isinstance(x, ast.Name)}
+        doc = ast.get_docstring(f.node) or ""
+        for p_ in params:
+            n += 1
+            if p_ in names:
+                res.ok(rule, f"{f.where()}: parameter {p_} is read", nontrivial=False)
+            elif f":param {p_}:" in doc:
+                res.fail_at(rule, f, f"documented-parameter-ignored:{f.node.name}:{p_}",
+                            f"{f.node.name} documents `{p_}` and never reads it: map_to_keyed_column(key_column_name='nm', value_column_name='val') produces the columns "
+                            f"measure, value, and map_from_keyed_column refuses a table that has nm and val")
+            else:
+                res.ok(rule, f"{f.where()}: parameter {p_} is unused and undocumented", nontrivial=False)
+    res.expect_count(rule, "parameters of cdata methods", n, 30)
+
+
+def sql_clause_terms_rule(program, res, rule="C17-S11"):
+    """the SQL generators of the record conversions: a GROUP BY / ORDER BY keyword is emitted only together with at least one term — a list built from
+    the record keys alone is empty for a specification without record keys (which RecordSpecification accepts)"""
+    for mname in ("blocks_to_row_recs_query_str_list_pair", "row_recs_to_blocks_query_str_list_pair"):
+        m = program.method("sql_model", "SQLModel", mname, inherited=False)
+        res.analysed(m)
+        g = cfgmod.build(m.node)
+        maybe_empty = set()
+        for st in ast.walk(m.node):
+            if isinstance(st, ast.Assign) and len(st.targets) == 1 and isinstance(st.targets[0], ast.Name) and isinstance(st.value, (ast.ListComp, ast.BinOp, ast.List)):
+                srcs = [unparse(c.generators[0].iter) for c in ast.walk(st.value) if isinstance(c, ast.ListComp)]
+                if srcs and all(x.endswith(".record_keys") for x in srcs) and not any(isinstance(e, ast.List) and e.elts for e in ast.walk(st.value)):
+                    maybe_empty.add(st.targets[0].id)
+        n = 0
+        for node in g.stmt_nodes(("stmt", "return")):
+            st = node.stmt
+            kws = [c.value for c in ast.walk(st) if isinstance(c, ast.Constant) and isinstance(c.value, str) and c.value.strip().upper() in ("GROUP BY", "ORDER BY")]
+            used = {x.id for x in ast.walk(st) if isinstance(x, ast.Name)} & maybe_empty
+            if not kws or not used:
+                continue
+            n += 1
+            guarded = any(lab is True and "len(" in unparse(b.cond) and (any(u in unparse(b.cond) for u in used) or "record_keys" in unparse(b.cond))
+                          for b, lab in g.lexical_guards(node))
+            if guarded:
+                res.ok(rule, f"{mname}: {sorted(set(k.strip() for k in kws))} over {sorted(used)} is emitted only when there are terms")
+            else:
+                res.fail_at(rule, m, f"clause-without-terms:{mname}",
+                            f"{mname} emits {sorted(set(k.strip() for k in kws))} followed by the terms of `{sorted(used)[0]}`, which is empty for a specification without record "
+                            f"keys: the query ends in `GROUP BY ORDER BY` (syntax error) where Pandas and Polars return the single record", st)
+        if n == 0:
+            res.ok(rule, f"{mname}: every GROUP BY / ORDER BY has a term that does not depend on the record keys alone")
+
+
 def run(program, res, tier):
+    res.rule("C17-S11", "SQL record conversions emit GROUP BY / ORDER BY only with terms")
+    sql_clause_terms_rule(program, res)
+    res.rule("C17-S10", "documented parameters of the record specification / record map methods are read")
+    documented_parameters_used(program, res)
+    res.rule("C17-S9", "Polars record conversions put missing record keys where Pandas puts them")
+    record_sort_null_position(program, res)
     res.rule("C17-S1", "inverse swaps blocks_in and blocks_out under the strictness assertion")
     res.rule("C17-S2", "transform applies blocks_in first, then blocks_out, chaining the result (Python and SQL)")
     res.rule("C17-S3", "compose applies `other` first, then `self`")
